@@ -2,10 +2,12 @@ module github.com/sheerbytes/sheerbytes/verifharness
 
 go 1.24
 
-require github.com/sheerbytes/sheerbytes v0.0.0
+require (
+	github.com/gorilla/websocket v1.5.1
+	github.com/sheerbytes/sheerbytes v0.0.0
+)
 
 require (
-	github.com/gorilla/websocket v1.5.1 // indirect
 	github.com/pion/dtls/v2 v2.2.7 // indirect
 	github.com/pion/logging v0.2.4 // indirect
 	github.com/pion/randutil v0.1.0 // indirect
